@@ -79,6 +79,17 @@ def check(chk):
                   'after the counter was advanced the same column\'s position is overwritten (%s): a subclass that re-declares an inherited partition key and adds another one gets a gapped '
                   'index map ({a: 0, b: 1, c: 3}); partition_key_values allocates 3 slots and parts[3] raises IndexError for every statement that fixes the whole key' % [src(b.ast) for b in bad])
     chk.judge("attrs['_partition_key_index'] = partition_key_index" in s and "attrs['_key_serializer'] = key_serializer" in s, 'C38.serializer', meta, 'both stored on the model class', 'storage of index/serializer changed')
+    # the driver type a key column is serialized with: looked up from this column's own db_type each time (db_type differs per subclass - a value cached on a class is
+    # inherited by every subclass that has not cached its own yet)
+    chk.rule('C38.type', 'Column.cql_type is _cqltypes[self.db_type], computed per call from the column\'s own db_type (no class-level cache)')
+    colm = chk.repo.mod('cassandra/cqlengine/columns.py')
+    ct = colm.func('Column.cql_type')
+    rets_ct = [r for r in body_walk(ct) if isinstance(r, ast.Return) and r.value is not None]
+    okct = bool(rets_ct) and all(src(resolve(ct, r.value)) == '_cqltypes[self.db_type]' for r in rets_ct)
+    cls_writes = [x for x in body_walk(ct) if isinstance(x, (ast.Assign, ast.AugAssign)) and any(isinstance(t, ast.Attribute) and src(t.value) in ('cls', 'type(self)', 'self.__class__') for t in (x.targets if isinstance(x, ast.Assign) else [x.target]))]
+    chk.judge(okct and not cls_writes, 'C38.type', ct, 'cql_type -> _cqltypes[self.db_type]',
+              'cql_type returns a value remembered on the class (%s): attribute lookup goes through inheritance, so once an Integer column has been asked, TinyInt / SmallInt / BigInt '
+              '(subclasses) answer Int32Type - their partition-key components are serialized with 4 bytes and the routing key is not the row\'s' % [src(x)[:50] for x in cls_writes])
     pk = st.func('BaseCQLStatement.partition_key_values')
     up = st.func('BaseCQLStatement._update_part_key_values')
     chk.judge('parts = [None] * len(field_index_map)' in src(pk) and 'w.operator.__class__ == EqualsOperator' in src(pk) and 'return parts' in src(pk), 'C38.values', pk,
